@@ -565,3 +565,27 @@ package transport
 //@   at `append(a.deferResponses, resp)` requires held && arg1 == resp
 //@   at `assign a.initialResponse` requires held && rhs0 == resp && initialResponse
 //@   ensures calls(Lock) == 1 && calls(Unlock) == 1
+
+// ---------------------------------------------------------------- C10: in-memory upload reader
+// Representation invariant r.i >= 0. Read never panics, advances the cursor by exactly the number of bytes it
+// reports and leaves it non-negative; Seek rejects negative positions (also when the addition wraps around) and
+// otherwise moves the cursor exactly to the returned position; only r.i is ever written.
+//@ trusted errors.New(text) (err)
+//@   ensures err != nil
+//@   nopanic
+//@   pure
+//@ func (*bytesReader).Read [C10]
+//@   requires r != nil && r.i >= 0
+//@   nopanic
+//@   modifies bytesReader.i elems
+//@   ensures r.i >= 0 && res0 >= 0
+//@   ensures r.i == old(r.i) + res0
+//@   ensures old(r.s) == nil ==> res1 != nil && res0 == 0
+//@ func (*bytesReader).Seek [C10]
+//@   requires r != nil && r.i >= 0
+//@   nopanic
+//@   modifies bytesReader.i
+//@   ensures r.i >= 0
+//@   ensures res1 == nil ==> r.i == res0 && res0 >= 0
+//@   ensures res1 != nil ==> r.i == old(r.i) && res0 == 0
+//@   ensures res1 == nil && whence == 0 ==> res0 == offset
